@@ -230,6 +230,13 @@ def run_property(spec: PropertySpec, tier: str, seed: int, reg: Registry) -> Run
     if spec.bounded is not None:
         try:
             run.bounded = spec.bounded(run) or {}
+            # a crash of the *harness* (not of the code under check) is a checker error, never a violation
+            fl = run.bounded.get('failures', [])
+            crashed = [f for f in fl if str(f.get('what', '')).startswith('harness crash')]
+            if crashed:
+                run.bounded['failures'] = [f for f in fl if f not in crashed]
+                run.bounded['n_failures'] = max(0, run.bounded.get('n_failures', len(fl)) - len(crashed))
+                run.errors.extend(f'bounded harness crashed on {f.get("scene")}: {f.get("what")}' for f in crashed[:3])
         except Exception as e:
             run.errors.append(f'bounded run crashed: {type(e).__name__}: {e}\n{traceback.format_exc()[-1500:]}')
     return run
